@@ -59,7 +59,7 @@ def ddm(ctx):
     env = {"e": e, "n": n}
     p1 = S("A__error_rate + (e - A__error_rate) / n", env)
     s1 = S("sqrt((A__error_std + (e - p1) * (e - A__error_rate)) / n)", dict(env, p1=p1))
-    st = {x.attr: x for x in tr.stores() if x.func.qualname == site}
+    st = {x.attr: x for x in tr.stores() if q.stack_has(x, site)}
     fin_rate = [x for x in tr.stores("_error_rate")]
     ctx.ob("FRM", site, "running error rate", bool(fin_rate) and T.same(fin_rate[-1].value, p1), q.short(fin_rate[-1].value, 160) if fin_rate else "", fin_rate[-1] if fin_rate else None)
     fin_std = [x for x in tr.stores("_error_std")]
@@ -177,7 +177,7 @@ def stepd(ctx):
     vals = {}
     for ce in tr.calls():
         fi = ce.d.get("fi")
-        if fi is not None and fi.name in ("recent_accuracy", "past_accuracy", "overall_accuracy") and ce.func.qualname == site and fi.name not in vals:
+        if fi is not None and fi.name in ("recent_accuracy", "past_accuracy", "overall_accuracy") and fi.name not in vals:  # in update itself or in a helper it calls
             rets = []
             for x in tr.events[ce.seq + 1:]:
                 if x.kind == "exit" and x.d.get("fi") is fi:
